@@ -216,6 +216,77 @@ m('C19', 'ok_rename_local_in_forward', TS, """		nonce := heap.Pop(m.index).(uint
 		removed = append(removed, m.items[n])
 		delete(m.items, n)""")
 
+# ---- harmless refactorings (must NOT be flagged)
+m('C17', 'ok_count_before_store', PS, """	ps.parts[part.Index] = part
+	ps.partsBitArray.SetIndex(part.Index, true)
+	ps.count++
+	return true, nil""", """	ps.count++
+	idx := part.Index
+	ps.parts[idx] = part
+	ps.partsBitArray.SetIndex(idx, true)
+	return true, nil""")
+m('C03', 'ok_reorder_field_updates', 'gemmill/types/priv_validator.go', """	privVal.LastHeight = height
+	privVal.LastRound = round
+	privVal.LastStep = step
+	privVal.LastSignature = signature
+	privVal.LastSignBytes = signBytes
+	if err := privVal.save(); err != nil {""", """	privVal.LastSignBytes = signBytes
+	privVal.LastSignature = signature
+	privVal.LastStep = step
+	privVal.LastRound = round
+	privVal.LastHeight = height
+	if err := privVal.save(); err != nil {""")
+m('C06', 'ok_commit_bytes_computed_earlier', 'gemmill/blockchain/store.go', """	// Save block meta
+	meta := types.NewBlockMeta(block, blockParts)
+	metaBytes := wire.BinaryBytes(meta)
+	bs.db.Set(calcBlockMetaKey(height), metaBytes)
+""", """	// Save block meta
+	seenCommitBytes0 := wire.BinaryBytes(seenCommit)
+	_ = seenCommitBytes0
+	meta := types.NewBlockMeta(block, blockParts)
+	metaBytes := wire.BinaryBytes(meta)
+	bs.db.Set(calcBlockMetaKey(height), metaBytes)
+""")
+m('C20', 'ok_write_chunk_len_local', SC, """			n += len(chunk)""", """			sent := len(chunk)
+			n += sent""")
+m('C14', 'ok_checkmajor_log_removed', 'gemmill/plugin/admin_op.go', """				log.Info("check major 2/3", zap.String("vote nil", fmt.Sprintf("sig=%X;pubkey=%X", sig.Signature, sigPubKey.KeyString())))""", """				log.Info("check major 2/3: vote nil")""")
+m('C07', 'ok_height_check_split', 'gemmill/consensus/pbft/wal.go', """		if edrs.Step == RoundStepNewHeight.String() {
+			wal.writeHeight(edrs.Height)
+		}""", """		newHeight := edrs.Step == RoundStepNewHeight.String()
+		if newHeight {
+			wal.writeHeight(edrs.Height)
+		}""")
+
+# ---- C11 journal
+JR = 'eth/core/state/journal.go'
+SO = 'eth/core/state/state_object.go'
+SD = 'eth/core/state/statedb.go'
+m('C11', 'revert_forwards', JR, "for i := len(j.entries) - 1; i >= snapshot; i-- {", "for i := snapshot; i < len(j.entries); i++ {")
+m('C11', 'revert_keeps_snapshot_entry', JR, "for i := len(j.entries) - 1; i >= snapshot; i-- {", "for i := len(j.entries) - 1; i > snapshot; i-- {")
+m('C11', 'nonce_restored_plus_one', JR, "s.getStateObject(*ch.account).setNonce(ch.prev)", "s.getStateObject(*ch.account).setNonce(ch.prev + 1)")
+m('C11', 'nonce_journalled_after_change', SO, """	self.db.journal.append(nonceChange{
+		account: &self.address,
+		prev:    self.data.Nonce,
+	})
+	self.setNonce(nonce)""", """	self.setNonce(nonce)
+	self.db.journal.append(nonceChange{
+		account: &self.address,
+		prev:    self.data.Nonce,
+	})""")
+m('C11', 'balance_journalled_by_reference', SO, "prev:    new(big.Int).Set(self.data.Balance),", "prev:    self.data.Balance,")
+m('C11', 'refund_not_journalled', SD, """func (self *StateDB) AddRefund(gas uint64) {
+	self.journal.append(refundChange{prev: self.refund})
+	self.refund += gas""", """func (self *StateDB) AddRefund(gas uint64) {
+	self.refund += gas""")
+m('C11', 'revert_to_wrong_revision', SD, "return self.validRevisions[i].id >= revid", "return self.validRevisions[i].id > revid")
+m('C11', 'later_revisions_kept', SD, "self.validRevisions = self.validRevisions[:idx]", "self.validRevisions = self.validRevisions[:idx+1]")
+m('C11', 'ok_rename_loop_entry', JR, """		// Undo the changes made by the operation
+		j.entries[i].revert(statedb)
+""", """		// Undo the changes made by the operation
+		entry := j.entries[i]
+		entry.revert(statedb)
+""")
+
 
 def main():
     want = set(sys.argv[1:])
